@@ -498,6 +498,11 @@ def gen_scenario(seed: int, p: dict | None = None) -> dict:
         g["lonlat"] = {"kind": "stereo", "xp0": round(s.uniform(-500, 500), 1),
                        "yp0": round(s.uniform(-3500, -2000), 1), "dxs": s.pick([0.8, 4.0, 20.0]),
                        "rot": round(s.uniform(-40, 40), 1), "lon_c": round(s.uniform(0, 60), 1)}
+    if big and g["lonlat"]["kind"] == "stereo" and g["lonlat"]["dxs"] > 4.0:
+        # 265 cells at 20 km would be a 5300 km patch that runs over the pole: not a grid of realistic resolution
+        g["lonlat"]["dxs"] = 4.0 if not huge else 0.8
+    if huge and g["lonlat"]["kind"] == "stereo":
+        g["lonlat"]["dxs"] = 0.8
     env = stream(seed, "gen.environment")
     if env.chance(p.get("p_h_integer", 0.08)):
         g["h_store"] = env.pick(["i4", "i2"])
